@@ -172,6 +172,16 @@ def maxDiff (a b : Array Float) : Float := Id.run do
       if e > d then d := e
   return d
 
-def fmtF (x : Float) : String := toString x
+/-- short scientific formatting for messages -/
+def fmtF (x : Float) : String :=
+  if x.isNaN then "NaN" else if x.isInf then (if x > 0.0 then "inf" else "-inf")
+  else if x == 0.0 then "0"
+  else
+    let a := x.abs
+    if a ≥ 1e-3 && a < 1e6 then toString x
+    else
+      let e := (Float.log10 a).floor
+      let m := x / Float.pow 10.0 e
+      s!"{(m * 1000.0).round / 1000.0}e{e.toInt64}"
 
 end Varpro.Drv
